@@ -81,6 +81,9 @@ type Config struct {
 	InMemory bool
 	// CustomCompare: install a counting KeyCompare wrapper (fault injection)
 	CustomCompare bool
+	// WideCompare: install a KeyCompare that answers like strcmp (negative / zero / positive, here
+	// -3, 0, 3) instead of -1, 0, 1: RemoteConfig.KeyCompare documents no range
+	WideCompare bool
 	// Seed: operations applied to build the initial state (non-initial starts)
 	Seed []Op
 }
@@ -361,5 +364,12 @@ func Uint8Cfg(bf uint, keys []uint8, format, cache string) *Config {
 	c := &Config{BF: bf, Format: format, KS: KSUint8, Keys: sortKeys(KSUint8, ks), Vals: strs("a", "b"),
 		KeysLike: uint8(0), ValsLike: "", Cache: cache, Probes: []interface{}{uint8(3), uint8(255)}}
 	c.Name = fmt.Sprintf("uint8%v/bf%d/%s/%s", keys, bf, shortFmt(format), cache)
+	return c
+}
+
+// Wide returns c with the strcmp-style comparator installed.
+func Wide(c *Config) *Config {
+	c.WideCompare = true
+	c.Name = "wide-compare/" + c.Name
 	return c
 }
